@@ -353,10 +353,10 @@ void run(size_t idx) {
 }
 
 MonReg reg({"C14", "exploration",
-			"every shape (up to 4 per model) of the real samples, of API-built models (skinned/unskinned, six versions) and of synthesised files around each geometry class with populated "
+			"every shape (up to 4 per model) of the real samples, of API-built models (skinned/unskinned, six versions, with and without model-space-normal shaders and NiTexturingProperty/NiSourceTexture chains) and of synthesised files around each geometry class with populated "
 			"children (properties, controllers, extra data, collision objects, skin blocks) x destination in {same model, fresh model of the same version, another loaded model of the "
 			"same version} x 1..3 repetitions. Oracle: the owned sub-graph below the clone is isomorphic to the source's (same types, canonical payloads equal, every owning slot resolved "
 			"inside the destination, no child shared with the source, back-pointers land on a block of the same kind and name or are dropped); accessor record (geometry, shader, textures, "
-			"skin) equal; bone list names equal and the bones exist; raw save of the source unchanged; destination default-saves and reloads with the clone present and unchanged.",
+			"skin) equal; bone list names equal and the bones exist; raw save of the source unchanged; destination default-saves and reloads with the clone present and unchanged. Plus, memory safety only: cloning inside models whose node tree repeats names.",
 			[] { return g_models.size() * 3; }, run, 6, 300.0, false, false, init});
 } // namespace
